@@ -639,3 +639,45 @@ def spec_complete_iteration(fns, consts):
 
 spec_complete_iteration.crate = "clap_complete"
 SPECS["C18"] = [spec_complete_iteration]
+
+
+# ------------------------------------------------------------------ C01: closures over matcher ids are total
+
+def spec_id_closures_total(fns, consts):
+    """Every closure in the parser/validator that is applied to ids drawn from the matcher (its item
+    parameter is an `&Id`): ids in the matcher name arguments OR groups, and `Command::find(id)` is
+    None for a group, so `unwrap()`/`expect()` directly on that lookup is a reachable panic."""
+    con = contracts.Contracts(fns, default_pure=True)
+    con.check_unwrap = r"^command::Command::find\("
+    ctx = symex.Ctx(consts, con)
+    obs, enc, examined, with_find = [], [], 0, 0
+    for name, lazy in sorted(fns.items()):
+        if "{closure#" not in name or not re.search(r"parser/(parser|validator|arg_matcher)\.rs", name):
+            continue
+        head = lazy.lines[0]
+        if not re.search(r"_2: &+(?:util::id::)?Id\)|_2: &?\(&+(?:util::id::)?Id,", head):
+            continue
+        try:
+            fn = lazy.get()
+            args = [("opq", f"env{examined}")] + [("opq", f"id{examined}") for _ in fn.params[1:]]
+            ex = symex.Exec(ctx, fn, args).run(cut_loops=True)
+        except Unsupported as e:
+            enc.append({"function": name + " [NOT ENCODED: " + str(e)[:60] + "]", "mir_line": lazy.lineno, "mir_blocks": 0, "obligations": 0, "return_paths": 0})
+            continue
+        examined += 1
+        with_find += any("Command::find" in c for calls in ex.return_calls for c in calls)
+        for o in ex.obligations:
+            if o["kind"] == "panic" and "which can be None" in o["msg"]:
+                o = dict(o)
+                o["target"] = "id_closures_total"
+                o["msg"] = f"{name.split('>::')[-1]}: " + o["msg"]
+                obs.append(o)
+        # one trivially-true obligation per encoded closure so that the evidence lists what was examined
+        obs.append({"fn": name, "block": "ret", "kind": "spec", "target": "id_closures_total", "msg": f"{name.split('>::')[-1]}: examined ({len(ex.returns)} return paths)", "pc": [], "neg": "false"})
+        enc.append(_enc(fn, ex, 1))
+    if examined < 5 or with_find < 2:
+        raise Unsupported(f"id closures: only {examined} encoded, {with_find} looking ids up (vacuous)")
+    return ctx, obs, enc, con
+
+
+SPECS["C01"] = [spec_id_closures_total]
